@@ -100,8 +100,19 @@ def check(ob, extra_axioms=(), want_model=True, rlimit=None):
       ob.result, ob.backend = 'refuted', 'cvc5'
       ob.time = time.time() - t0
       return ob.result
-    s.set('rlimit', rlimit or RLIMIT)
-    r = s.check()
+    # stage 3: a small portfolio -- the obligations that are decided at all are decided within a second or two, and
+    # whether z3 finds the instantiations depends on its random seed: several short runs beat one long run
+    for seed_ in (0, 7, 23, 101):
+      s3 = z3.Solver()
+      s3.set('random_seed', seed_)
+      s3.set('rlimit', (rlimit or RLIMIT) // 2)
+      s3.set('timeout', max(4000, TIMEOUT_MS // 3))
+      for a in s.assertions():
+        s3.add(a)
+      r = s3.check()
+      if r != z3.unknown:
+        s = s3
+        break
   if r == z3.unsat:
     ob.result = 'proved'
   elif r == z3.sat:
@@ -117,7 +128,7 @@ def check(ob, extra_axioms=(), want_model=True, rlimit=None):
   return ob.result
 
 
-def run_cvc5(smt2, timeout=20):
+def run_cvc5(smt2, timeout=8):
   if not os.path.exists(CVC5):
     return 'unknown'
   txt = '(set-logic ALL)\n' + smt2
